@@ -111,7 +111,10 @@ E(r, m, f, hows, c) == {[rpc |-> r, msg |-> m, field |-> f, how |-> h, class |->
 \* the raw encoding of a message: cut short (stream closed) or followed by garbage
 RawLast(r, m)  == E(r, m, "Raw", {"truncate"}, "evidence") \cup E(r, m, "Raw", {"extend"}, "neutral")
 RawInner(r, m) == E(r, m, "Raw", {"truncate"}, "evidence") \cup E(r, m, "Raw", {"extend"}, "unbind")
-HostSig(r, m)  == E(r, m, "HostSignature", {"flip", Swap, "resign"}, "unbind")
+\* "transportKey": the answering host signs what the renter expects -- with the key of its TRANSPORT
+\* identity.  Only in the world where that key is not the contract's host key (samekey = FALSE); the
+\* returned revision must verify under ITS OWN HostPublicKey.
+HostSig(r, m)  == E(r, m, "HostSignature", {"flip", Swap, "resign", "transportKey"}, "unbind")
 
 Catalog ==
     \* ---- read: range proof over exactly DataLength streamed bytes (rpc.go:496-505)
@@ -199,7 +202,7 @@ Catalog ==
               \cup E(r, "final", "MinerFee", {"flip"}, "unbind")                                    \* id-bound
               \cup E(r, "final", "SiacoinInputs", {"truncate"}, "unbind")
               \cup E(r, "final", "SiacoinOutputs", {"extend"}, "unbind")
-              \cup E(r, "final", "ContractHostSignature", {"flip", Swap}, "unbind")                  \* signature-bound
+              \cup E(r, "final", "ContractHostSignature", {"flip", Swap, "transportKey"}, "unbind")                  \* signature-bound
               \cup E(r, "final", "ContractRenterSignature", {"flip"}, "info")   \* the renter's own signature: not re-checked
               \cup E(r, "final", "TransactionSet", {"truncate", "wrongCount"}, "evidence")
               \cup E(r, "final", "TransactionSet", {"extend"}, "info")          \* parents are the pool's business
@@ -210,7 +213,7 @@ Catalog ==
     \cup UNION {   UNION {E(r, "final", f, {"flip"}, "unbind") : f \in RenewalFields}                \* id-bound
               \cup E(r, "final", "ParentID", {"flip"}, "unbind")
               \cup E(r, "final", "Resolution", {"otherRoot"}, "unbind")         \* another kind of resolution
-              \cup E(r, "final", "RenewalHostSignature", {"flip", Swap}, "unbind")                   \* signature-bound
+              \cup E(r, "final", "RenewalHostSignature", {"flip", Swap, "transportKey"}, "unbind")                   \* signature-bound
               \cup E(r, "final", "RenewalRenterSignature", {"flip"}, "info") : r \in Renewing}
     \cup E("FormContract", "final", "FileContracts", {"extend"}, "unbind")      \* a second contract rides along
     \* ---- informational
@@ -242,6 +245,16 @@ Checked ==
              "ContractHostSignature", "RenewalHostSignature", "HostInputs", "Raw"}}
 
 -----------------------------------------------------------------------------
+\* World parameter: is the peer key of the transport the renter dials (TransportClient.PeerKey) the
+\* host key of the contract?  FALSE: a separate / rotated transport identity, a pooled connection, the
+\* contract of host A presented over a transport to B.  Explored for every RPC that returns a
+\* host-signed revision; in that world the plans are the honest exchange and the signature faults.
+SigRPCs   == {"SectorRoots", "AppendSectors", "FreeSectors", "FundAccounts", "ReplenishAccounts", "ReplenishPools"} \cup Lifecycle
+SigFields == {"HostSignature", "ContractHostSignature", "RenewalHostSignature"}
+KeyRegimes(r) == IF r \in SigRPCs THEN BOOLEAN ELSE {TRUE}
+RegimeOK(k, p) == /\ ~k => \A f \in p : f.field \in SigFields
+                  /\ k => \A f \in p : f.how # "transportKey"
+
 VariantsOf(r) == IF r = "ReadSector" THEN ReadVariants ELSE IF r \in Lifecycle THEN LifeVariants ELSE Variants
 Cat(r) == {c \in Catalog : c.rpc = r}
 F(c) == [msg |-> c.msg, field |-> c.field, how |-> c.how, k |-> 0]
@@ -304,20 +317,21 @@ Detected(r, f) == /\ <<r, f.field>> \in Checked \ DevUnchecked
 \* the distinct indices in descending order; everything else: the arguments as given).  TRUE while
 \* nothing was sent.  The abstract client always normalises; the recorded value comes from the request
 \* bytes the man in the middle captured.
-VARIABLES rpc, variant, plan, pos, outcome, bound, wire, act
-vars == <<rpc, variant, plan, pos, outcome, bound, wire, act>>
-view == <<rpc, variant, plan, pos, outcome, bound, wire>>
+VARIABLES rpc, variant, samekey, plan, pos, outcome, bound, wire, act
+vars == <<rpc, variant, samekey, plan, pos, outcome, bound, wire, act>>
+view == <<rpc, variant, samekey, plan, pos, outcome, bound, wire>>
 
 Init ==
     /\ rpc = "none" /\ variant = 0 /\ plan = {} /\ pos = 0
-    /\ outcome = "idle" /\ bound = FALSE /\ wire = TRUE
+    /\ outcome = "idle" /\ bound = FALSE /\ wire = TRUE /\ samekey = TRUE
     /\ act = [op |-> "Init"]
 
-Start(r, v, p) ==
+Start(r, v, k, p) ==
     /\ outcome = "idle"
     /\ rpc' = r /\ variant' = v /\ plan' = p /\ pos' = 1
-    /\ outcome' = "running" /\ bound' = FALSE /\ wire' = TRUE
-    /\ act' = [op |-> "Start", rpc |-> r, variant |-> v, plan |-> p, must |-> MustOf(r, p),
+    /\ RegimeOK(k, p)
+    /\ outcome' = "running" /\ bound' = FALSE /\ wire' = TRUE /\ samekey' = k
+    /\ act' = [op |-> "Start", rpc |-> r, variant |-> v, samekey |-> k, plan |-> p, must |-> MustOf(r, p),
                classes |-> {[msg |-> f.msg, field |-> f.field, how |-> f.how, k |-> f.k, class |-> ClassOf(r, f)] : f \in p}]
 
 \* the host delivers message `pos` (with the planned faults); the abstract client checks it
@@ -333,10 +347,10 @@ Deliver ==
                             /\ bound' = ~Unbinds(rpc, plan)   \* ground truth of the statement
                             /\ UNCHANGED pos
                        ELSE pos' = pos + 1 /\ UNCHANGED <<outcome, bound>>
-    /\ UNCHANGED <<rpc, variant, plan, wire>>
+    /\ UNCHANGED <<rpc, variant, samekey, plan, wire>>
 
 Next ==
-    \/ \E r \in RPCs : \E v \in VariantsOf(r) : \E p \in Plans(r) : Start(r, v, p)
+    \/ \E r \in RPCs : \E v \in VariantsOf(r) : \E k \in KeyRegimes(r) : \E p \in Plans(r) : Start(r, v, k, p)
     \/ Deliver
 
 Spec == Init /\ [][Next]_vars
@@ -345,7 +359,7 @@ Spec == Init /\ [][Next]_vars
 TypeOK ==
     /\ rpc \in RPCs \cup {"none"}
     /\ outcome \in {"idle", "running", "ok", "err"}     \* never a panic
-    /\ bound \in BOOLEAN /\ wire \in BOOLEAN
+    /\ bound \in BOOLEAN /\ wire \in BOOLEAN /\ samekey \in BOOLEAN
     /\ Cardinality(plan) <= IF MaxFaults > 1 THEN MaxFaults ELSE 1
 
 \* C10: a call that reports success is bound (the informational RPCs make no claim)
